@@ -214,7 +214,16 @@ def run_mut(case):
         e, s = compare(o2, list(W2), ops, W, dict(inp0, mutation=what), fails, "mutant,A")
         evals += e
     # language-preserving images must be reported equivalent
+    start0, stop0, arcs0 = fsm.data(ops, W)
+    allw = {}
+    for i, a, j, w in arcs0:
+        allw[(i, j)] = allw.get((i, j), 0) + w
+    from vf.ref_fsa import spectral_ok
+
+    total_converges = spectral_ok(sorted({q for q in start0} | {q for q in stop0} | {i for i, _, _, _ in arcs0} | {j for _, _, j, _ in arcs0}), allw)
     for name, f in IMAGES:
+        if name == "push" and not total_converges:
+            continue  # weight pushing needs finite backward weights (path sums over all strings converge)
         a = lib(ops, W)
         img = guarded(lambda: f(a))
         evals += 1
